@@ -10,10 +10,12 @@
    `**` is the last segment.  The pushed handles are appended on top of the stack, so the directory
    pushed last is listed first; a directory whose listing is exhausted is popped.
 
-   `walk` is the denotation of that loop for a directory handle that returns its whole listing at
-   once (LocalDirHandle::list_inner): output order = files of the listed directory in listing
-   order, then the pushed handles in reverse push order, depth first.  The remaining segments are
-   carried as a list (suffix of the segment vector) instead of an index.
+   `run` / `expand_stack` below is that loop as written (stack of frames, fuel = loop iterations) for a
+   directory handle that returns its whole listing at once (LocalDirHandle::list_inner).
+   `walk` / `expand` is its denotation (proved: proofs/GlobProofs.v expand_stack_is_expand): output
+   order = files of the listed directory in listing order, then the pushed handles in reverse push
+   order, depth first.  The remaining segments are carried as a list (suffix of the segment
+   vector) instead of an index.
    Segment matching (globset, external; string equality for literal segments) is the Section
    parameter `m`. *)
 From Coq Require Import List Bool NArith.
@@ -64,7 +66,57 @@ Section Glob.
         end
     end.
 
-  (* GlobHandle::open pushes the root directory with segment 0; paths are relative to it *)
+  (* ---- the loop itself, as written: a stack of directory handles.  A frame is a handle
+     (entries fr_ch of the directory at fr_path, fr_done = the listing has been delivered, so the
+     next poll_list returns 0) with the remaining segments.  The head of the list is the top of the
+     Vec (`stack.last_mut()`); `temp_stack` is appended in push order, so the frame pushed last is
+     on top.  One unit of fuel = one iteration of the `loop`. ---- *)
+  Record frame := mk_fr { fr_ch : forest; fr_path : list name; fr_done : bool; fr_segs : list seg }.
+
+  Definition child_frame (c : node) (path : list name) (segs : list seg) : list frame :=
+    match c with
+    | Dir n ch => [mk_fr ch (path ++ [n]) false segs]
+    | File _ => []
+    end.
+
+  (* the handles pushed while listing entries f, in push order *)
+  Fixpoint pushes (f : forest) (path : list name) (segs : list seg) : list frame :=
+    match f with
+    | FNil => []
+    | FCons c r =>
+        (match c, segs with
+         | Dir n _, s :: rest =>
+             if dstar s then
+               child_frame c path segs ++ (match rest with [] => [] | _ :: _ => child_frame c path rest end)
+             else if m (sid s) n then
+               (match rest with [] => [] | _ :: _ => child_frame c path rest end)
+             else []
+         | _, _ => []
+         end) ++ pushes r path segs
+    end.
+
+  Fixpoint run (fuel : nat) (stack : list frame) (acc : list (list name)) : option (list (list name)) :=
+    match fuel with
+    | O => None
+    | S k =>
+        match stack with
+        | [] => Some acc                                      (* stack empty: Ready(Ok(0)) *)
+        | fr :: below =>
+            if fr_done fr then run k below acc                 (* poll_list = 0: pop *)
+            else run k (rev (pushes (fr_ch fr) (fr_path fr) (fr_segs fr))
+                        ++ mk_fr (fr_ch fr) (fr_path fr) true (fr_segs fr) :: below)
+                       (acc ++ emits (fr_ch fr) (fr_path fr) (fr_segs fr))
+        end
+    end.
+
+  Definition expand_stack (fuel : nat) (root : node) (segs : list seg) : option (list (list name)) :=
+    match root with
+    | Dir _ ch => run fuel [mk_fr ch [] false segs] []
+    | File _ => Some []
+    end.
+
+  (* GlobHandle::open pushes the root directory with segment 0; paths are relative to it.
+     `expand` is the denotation of `expand_stack` (proofs/GlobProofs.v: expand_stack_is_expand) *)
   Definition expand (root : node) (segs : list seg) : list (list name) := walk root [] segs.
 
   (* ---- the declarative meaning of a glob (globset): `**` followed by further segments stands for
